@@ -46,6 +46,7 @@ def run(idx: ProgramIndex, rep: Report, tier: str):
     objective_reductions(idx, rep)
     prior_alignment(idx, rep)
     right_alignment(idx, rep)
+    no_absolute_rank(idx, rep)
 
 
 def _families(idx: ProgramIndex) -> List[ClassInfo]:
@@ -478,3 +479,39 @@ def right_alignment(idx: ProgramIndex, rep: Report):
         rep.add("C08-7", "%s:%s.forward" % (cls.module.name, cls.qualname), fi.where, not probs,
                 "no tiling by the data's batch shape, no rank-derived singleton counts" if not probs else "; ".join(probs), {})
     rep.floor("C08-7", "forward methods of means, kernels and noise models", n, 42)
+
+
+# ---- C08-8 ---------------------------------------------------------------------------------------------------------
+def no_absolute_rank(idx: ProgramIndex, rep: Report):
+    """Batch shapes are arbitrary, so a tensor with batch dimensions has no fixed rank.  A branch that fires when the rank *equals* a
+    literal >= 3 ("a 4-d cache must be the f x 1 x b x n of a fantasy model") singles out one batch layout by coincidence and does to
+    every other tensor of that rank what was meant for that layout (e.g. squeezes away a legitimate singleton batch dimension).
+    Ranks 1 and 2 are the un-batched vector / matrix cases and are legitimate to test."""
+    rep.rule("C08-8", "no behaviour keyed on an absolute tensor rank >= 3 (batch shapes are arbitrary; such a test singles out one batch layout by coincidence)")
+    n = 0
+    sites = 0
+    for fi in sorted(idx.all_functions(), key=lambda f: (f.module.name, f.qualname)):
+        tests = []
+        for node in ast.walk(fi.node):
+            if isinstance(node, (ast.If, ast.IfExp, ast.While)):
+                for c in ast.walk(node.test):
+                    if isinstance(c, ast.Compare) and len(c.ops) == 1 and isinstance(c.ops[0], (ast.Eq,)) and len(c.comparators) == 1:
+                        l, r = c.left, c.comparators[0]
+                        for a, b in ((l, r), (r, l)):
+                            is_rank = (isinstance(a, ast.Call) and chain(a.func) == "len" and a.args and isinstance(a.args[0], ast.Attribute) and a.args[0].attr == "shape") or \
+                                      (isinstance(a, ast.Call) and isinstance(a.func, ast.Attribute) and a.func.attr in ("dim", "ndimension") and not a.args) or \
+                                      (isinstance(a, ast.Attribute) and a.attr == "ndim")
+                            if is_rank:
+                                n += 1
+                                if isinstance(b, ast.Constant) and isinstance(b.value, int) and b.value >= 3:
+                                    tests.append((node, c, b.value))
+        for node, c, k in tests:
+            sites += 1
+            body = node.body if isinstance(node.body, list) else [node.body]
+            acts = sorted({x.func.attr for b_ in body for x in ast.walk(b_) if isinstance(x, ast.Call) and isinstance(x.func, ast.Attribute) and x.func.attr in ("squeeze", "unsqueeze", "view", "reshape", "transpose", "permute", "select", "expand", "repeat", "sum", "mean")})
+            rep.add("C08-8", "%s:%s[rank == %d]" % (fi.module.name, fi.qualname, k), "%s:%d" % (fi.module.relpath, c.lineno), False,
+                    "`%s` selects tensors of rank exactly %d and applies %s to them: every other batch layout that happens to have this rank (e.g. a model batch shape with a singleton dimension) is treated like the one the test was written for" % (
+                        " ".join(src(c).split())[:50], k, "/".join(acts) or "a special case"), {})
+    if sites == 0:
+        rep.add("C08-8", "package[no absolute rank tests]", "gpytorch/", True, "%d rank comparisons, none against a literal >= 3" % n, {})
+    rep.floor("C08-8", "rank comparisons", n, 20)
